@@ -354,6 +354,36 @@ pub fn label(rng: &mut Rng, t: &mut Rose, o: &LabelOpts) {
     t.for_each_mut(&mut f, true, 0);
 }
 
+/// Characters that mean nothing to any format of the crate and must therefore pass through every function untouched: markup
+/// (`&`, `<`, `>`), shell / regex / path / format-string metacharacters, digits-and-signs that read as numbers, multi-byte
+/// letters.  `text_safe` leaves out nothing here (none of them is Newick or Phylip syntax, none is white space).
+pub const SPICE: &[&str] = &["&", "<", ">", "&amp;", "&lt;", "'", "%", "%s", "{}", "{0}", "#", "@", "!", "$", "^", "*", "_", "-", "+", "=", "|", "\\", "/", "?", ".", "~", "`", "0x", "1e3", "-1", "é", "ß", "Ω", "日本", "🌳"];
+
+/// rewrites about `pct` percent of the names of a tree by inserting one of the SPICE strings at a random position (front,
+/// middle, end) or by making the whole name one of them followed by a counter (so names stay pairwise different)
+pub fn spice_names(rng: &mut Rng, t: &mut Rose, pct: usize) -> usize {
+    let mut k = 0usize;
+    t.for_each_mut(
+        &mut |r, _, _| {
+            if let Some(n) = r.name.as_mut() {
+                if rng.below(100) < pct {
+                    let s = *rng.pick(SPICE);
+                    let chars: Vec<char> = n.chars().collect();
+                    let at = match rng.below(3) { 0 => 0, 1 => chars.len(), _ => rng.below(chars.len() + 1) };
+                    let mut out: String = chars[..at].iter().collect();
+                    out.push_str(s);
+                    out.extend(chars[at..].iter());
+                    *n = out;
+                    k += 1;
+                }
+            }
+        },
+        true,
+        0,
+    );
+    k
+}
+
 /// Build through the public API in pre-order: ids equal pre-order positions.
 pub fn build_api(t: &Rose) -> Tree {
     fn node_of(r: &Rose) -> Node {
